@@ -764,10 +764,177 @@ def crosscheck_pyyaml(strings: list[dict]) -> tuple[int, list]:
 
 
 # ------------------------------------------------------------------------------------------------------------------
+# (c) the writer thread: queue + bounded join + slow sink
+# ------------------------------------------------------------------------------------------------------------------
+class SlowSink:
+    """Stands in for the LazyFile of a report: every write() takes `delay` seconds (busy disk / network file system) and the
+    calls that reach the file are logged in one total order (lock)."""
+
+    def __init__(self, path: str, delay: float, log: list, lock: threading.Lock):
+        self._fd = open(path, "w", encoding="utf-8")
+        self._delay, self._log, self._lock = delay, log, lock
+        self.writer_thread: threading.Thread | None = None
+        self.name = path
+
+    def open(self):
+        return self
+
+    def write(self, data: str) -> int:
+        time.sleep(self._delay)
+        n = self._fd.write(data)  # raises ValueError on a closed file - as the real LazyFile does
+        with self._lock:
+            self._log.append("W")
+        return n
+
+    def flush(self) -> None:
+        if not self._fd.closed:
+            self._fd.flush()
+
+    def close(self) -> None:
+        me = threading.current_thread()
+        with self._lock:
+            if me is not self.writer_thread and not self._fd.closed and self.writer_thread is not None and self.writer_thread.is_alive():
+                self._log.append("CloseMain")
+        self._fd.close()
+
+    def __getattr__(self, name: str):
+        return getattr(self._fd, name)
+
+
+def writer_run(desc: dict) -> list[dict]:
+    """One real run of both cassette writers on slow sinks, driven like executor._execute (start, events, shutdown), then the
+    process-exit part (wait for the non-daemon writer threads, close the files). Returns one trace per format."""
+    st = _setup()
+    n = desc["n"]
+    events, exch = build_events(st, [{"kind": "SF", "label": "GET /a", "phase": 3, "shape": "ok"} for _ in range(n)])
+    events = events[:-1]  # EngineFinished is irrelevant for the cassettes
+    d = tempfile.mkdtemp(prefix="c16w-")
+    RF = st["ReportFormat"]
+    lock = threading.Lock()
+    runs = []
+    died: dict[str, str] = {}
+    old_hook = threading.excepthook
+    threading.excepthook = lambda a: died.__setitem__(a.thread.name if a.thread else "?", a.exc_type.__name__ + ": " + str(a.exc_value)[:80])
+    try:
+        for fmt, delay, fname in ((RF.VCR, desc["vcr_delay"], "vcr.yaml"), (RF.HAR, desc["har_delay"], "har.json")):
+            log: list[str] = []
+            sink = SlowSink(os.path.join(d, fname), delay, log, lock)
+            h = st["CassetteWriter"](format=fmt, path=sink, sanitize_output=False, preserve_bytes=False)
+            h.worker.name = "writer-" + fmt.value
+            sink.writer_thread = h.worker
+            runs.append((fmt.value, sink, h, log))
+        ctx = st["ExecutionContext"](seed=1)
+        for _, _, h, log in runs:
+            h.start(ctx)
+            with lock:
+                log.append("Start")
+        for event in events:
+            ctx.on_event(event)
+            for _, _, h, log in runs:
+                h.handle_event(ctx, event)
+                with lock:
+                    log.append("Enq")
+        for _, _, h, log in runs:  # executor: `finally: shutdown()`
+            with lock:
+                log.append("PutFin")
+            h.shutdown(ctx)
+            with lock:
+                log.append("JoinTimeout" if h.worker.is_alive() else "Joined")
+        out = []
+        for fmt, sink, h, log in runs:  # interpreter exit: waits for non-daemon threads, then files are closed
+            h.worker.join(300)
+            with lock:
+                log.append("Died" if h.worker.name in died else "Done")
+                log.append("Exit")
+            sink.close()
+            with open(sink.name, encoding="utf-8") as fd:
+                text = fd.read()
+            entries, ok = [], True
+            try:
+                if fmt == "vcr":
+                    import yaml
+
+                    doc = yaml.load(text, Loader=yaml.SafeLoader)
+                    uris = [it["request"]["uri"] for it in doc["http_interactions"] or []]
+                    ok = py_vcr_ok(text, exch, [{"status": "SUCCESS", "resp": True, "meta": "generate",
+                                                 "checks": [{"name": "chk", "status": "SUCCESS", "message": None}]}] * n, False)
+                else:
+                    uris = [e["request"]["url"] for e in json.loads(text)["log"]["entries"]]
+                entries = [int(re.search(r"[?&]e=(\d+)", u).group(1)) for u in uris]
+            except Exception:
+                ok = False
+            out.append({"format": fmt, "events": log, "n": n, "entries": entries, "wellFormed": ok,
+                        "timedOut": "JoinTimeout" in log, "died": died.get(h.worker.name, ""), "desc": desc})
+        return out
+    finally:
+        threading.excepthook = old_hook
+        shutil.rmtree(d, ignore_errors=True)
+
+
+def judge_writer(ctx: Ctx, traces: list[dict], tag: str = "w") -> tuple[list[dict], int]:
+    """TLC replays every trace through ReportsWriter's actions. Returns per trace {accepted, stuck_at} and the state count."""
+    f = ctx.path("writer-%s.json" % tag)
+    tlc.write_json(f, {"traces": [{"events": t["events"], "n": t["n"], "entries": t["entries"], "wellFormed": t["wellFormed"]}
+                                  for t in traces]})
+    at: list = []
+    res = tlc.require_ok(tlc.run_tlc("ReportsWriterTrace", "ReportsWriterTrace.cfg", env={"OBS_FILE": f}, workers=4, timeout=1800,
+                                     on_json=lambda tg, d: at.append(d), want_prints=False), "ReportsWriterTrace")
+    out = []
+    for k, t in enumerate(traces, 1):
+        mine = [a for a in at if a["i"] == k]
+        reached = max([a["idx"] for a in mine] or [0])
+        out.append({"accepted": any(a["fin"] for a in mine), "reached": reached,
+                    "stuck_at": t["events"][reached] if reached < len(t["events"]) else "final-state"})
+    return out, res.distinct
+
+
+def writer_violations(traces: list[dict], verdicts: list[dict]) -> list[Violation]:
+    out = []
+    for t, v in zip(traces, verdicts):
+        # driver-side reading of the same run; must coincide with TLC's
+        mine = t["wellFormed"] and t["entries"] == list(range(1, t["n"] + 1)) and not t["died"] and "CloseMain" not in t["events"]
+        if mine != v["accepted"]:
+            raise tlc.TLCFailure("writer trace %s: driver says %s, TLC says %s - machinery inconsistency" % (t["format"], mine, v))
+        if not v["accepted"]:
+            out.append(Violation(
+                "C16:writer:%s:%s:%s" % (t["format"], v["stuck_at"], "join-timed-out" if t["timedOut"] else "joined"),
+                "%s writer on a slow sink (%d scenarios): no behaviour of ReportsWriter matches the run beyond event #%d (%s); "
+                "file has entries %s of %d, well-formed=%s, writer thread: %s" % (
+                    t["format"], t["n"], v["reached"] + 1, v["stuck_at"], t["entries"][:20], t["n"], t["wellFormed"], t["died"] or "ended normally"),
+                {"kind": "writer", "desc": t["desc"]}))
+    return out
+
+
+# ------------------------------------------------------------------------------------------------------------------
 def run(ctx: Ctx) -> Outcome:
     out = Outcome()
     rng = random.Random(ctx.seed)
     tier = "quick" if ctx.quick else "thorough"
+
+    # ---- (c) writer thread on a slow sink: started now, runs beside (a) and (b) --------------------------------
+    wdescs = [{"n": 8, "vcr_delay": 0.012, "har_delay": 0.15}] if ctx.quick else \
+        [{"n": 8, "vcr_delay": 0.012, "har_delay": 0.15}, {"n": 3, "vcr_delay": 0.03, "har_delay": 0.4},
+         {"n": 16, "vcr_delay": 0.006, "har_delay": 0.08}, {"n": 2, "vcr_delay": 0.0, "har_delay": 0.0}]
+    wtraces: list = []
+    werr: list = []
+
+    def _wruns():
+        try:
+            for wd in wdescs:
+                wtraces.extend(writer_run(wd))
+        except BaseException as exc:
+            werr.append(exc)
+
+    wthread = threading.Thread(target=_wruns)
+    wthread.start()
+    res_w = tlc.require_ok(tlc.run_tlc("ReportsWriter", "ReportsWriter.cfg", workers=4, timeout=600), "ReportsWriter model")
+    for inv in res_w.violated:
+        out.violations.append(Violation("C16:spec:" + inv, "property %s violated in ReportsWriter.tla" % inv,
+                                        {"kind": "spec", "invariant": inv, "trace": res_w.counterexample[:60]}))
+    if not ctx.quick:  # the design with the handler closing the file after the bounded join must be refuted by the same properties
+        res_c = tlc.require_ok(tlc.run_tlc("ReportsWriter", "ReportsWriter_closing.cfg", workers=4, timeout=600), "ReportsWriter closing")
+        if "WriterNeverDies" not in res_c.violated:
+            raise tlc.TLCFailure("ReportsWriter_closing.cfg: the closing design is not refuted - the writer properties are vacuous")
 
     # ---- (a) histories --------------------------------------------------------------------------------------
     hs: list[dict] = []
@@ -849,12 +1016,21 @@ def run(ctx: Ctx) -> Outcome:
             out.violations.append(Violation(sig, "%s of %r placed in %s (preserve_bytes=%s, sanitize=%s): %s" % (
                 comp, "".join(map(chr, s)), field, preserve, sanitize, tg), {"kind": "string", "case": c}))
 
+    wthread.join()
+    if werr:
+        raise werr[0]
+    wverdicts, states_w = judge_writer(ctx, wtraces)
+    out.violations.extend(writer_violations(wtraces, wverdicts))
+
     nontrivial_h = sum(1 for h in hs if any(hz for hz in h["hazards"]))
     out.coverage = {
-        "states": res_h.distinct + res_s.distinct,
-        "transitions": res_h.generated + res_s.generated,
-        "traces_validated_against_impl": len(hs) + len(kept_cases),
-        "judge_states": states_judge_h + states_judge_s,
+        "states": res_h.distinct + res_s.distinct + res_w.distinct,
+        "transitions": res_h.generated + res_s.generated + res_w.generated,
+        "traces_validated_against_impl": len(hs) + len(kept_cases) + len(wtraces),
+        "judge_states": states_judge_h + states_judge_s + states_w,
+        "writer_model_states": res_w.distinct,
+        "writer_traces": [{"format": t["format"], "n": t["n"], "events": len(t["events"]), "join_timed_out": t["timedOut"],
+                           "accepted": v["accepted"]} for t, v in zip(wtraces, wverdicts)],
         "evaluations": len(hs) + len(cases),
         "distinct_nontrivial": nontrivial_h + sum(1 for c in kept_cases if any(x != 97 for x in c["s"])),
         "histories": len(hs), "histories_with_hazard": nontrivial_h, "histories_disagreeing": n_bad_h,
@@ -875,7 +1051,8 @@ def run(ctx: Ctx) -> Outcome:
                 "ExecutionContext/JunitXMLHandler/CassetteWriter(vcr,har) and judged step by step by ReportsTrace.tla; "
                 "(b) every string of ReportsYaml_%s.cfg x %d fields x preserve/sanitize variants (strings of the maximal length 3: the 7 "
                 "hand-quoted fields, plain variant only), raw cassette judged line by line "
-                "by ReportsYamlJudge.tla; non-trivial = history with a spec hazard / string with a non-alphanumeric character" % (
+                "by ReportsYamlJudge.tla; (c) ReportsWriter.tla model-checked (all interleavings of handler and writer thread incl. the "
+                "bounded join timing out), real writer runs on a slow sink validated as traces by ReportsWriterTrace.tla; non-trivial = history with a spec hazard / string with a non-alphanumeric character" % (
                     tier, tier, len(FIELDS)),
         "exhaustive": True,
         "constants": {"history_cfg": "Reports_%s.cfg" % tier, "string_cfg": "ReportsYaml_%s.cfg" % tier, "fields": FIELDS},
@@ -883,6 +1060,7 @@ def run(ctx: Ctx) -> Outcome:
         "tlc_judge_s": round(t_judge_h + t_judge_s, 1),
     }
     out.assumptions = [
+        "the slow sink's write()/close() log (one lock) is the linearisation of the writer run; queue.get (Take) is not observed",
         "hand-built ScenarioRecorder/Case/PreparedRequest/Response objects are what the engine delivers; the driver's loop mirrors executor._execute",
         "the history family over-approximates engine orders (phases non-decreasing, any label in any phase); a finding is triaged for reachability",
         "closing the LazyFile handles after shutdown stands for process exit",
@@ -914,6 +1092,10 @@ def replay(ctx: Ctx, data: dict) -> Outcome:
         verdict, _, _ = judge_histories(ctx, [h], [o], "r")
         for comp, n, tg in sorted(verdict.get(0, set())):
             out.violations.append(Violation(history_signature(h, o, comp, n, tg), "%s[%s]:%s" % (comp, n, tg), data))
+    elif data.get("kind") == "writer":
+        traces = writer_run(data["desc"])
+        verdicts, _ = judge_writer(ctx, traces, "replay")
+        out.violations.extend(writer_violations(traces, verdicts))
     elif data.get("kind") == "string":
         c = data["case"]
         o = observe_string(c)
@@ -949,6 +1131,16 @@ def selftest(ctx: Ctx) -> bool:
     expect = [[], [("stat", "unique")], [("vcr", "malformed")], [("vcr", "uri")], [("junit", "failures")], [("har", "count")]]
     if comps != expect:
         print("selftest: history judge gave", comps, "expected", expect)
+        return False
+    # writer traces: the real run is accepted; the same run with the file closed by the handler / a lost entry is not
+    tr = writer_run({"n": 3, "vcr_delay": 0.02, "har_delay": 0.3})
+    bad1 = dict(tr[0], events=[e for e in tr[0]["events"]])
+    k = bad1["events"].index("JoinTimeout") if "JoinTimeout" in bad1["events"] else bad1["events"].index("Joined")
+    bad1["events"] = bad1["events"][:k + 1] + ["CloseMain", "Died", "Exit"]
+    bad2 = dict(tr[1], entries=tr[1]["entries"][:-1])
+    wv, _ = judge_writer(ctx, tr + [bad1, bad2], "selftest")
+    if [v["accepted"] for v in wv] != [True, True, False, False] or wv[2]["stuck_at"] != "CloseMain":
+        print("selftest: writer judge gave", wv, [t["events"][-6:] for t in tr])
         return False
     c = {"s": [39, 34], "field": "resp-body", "preserve": False, "sanitize": False}
     o = observe_string(c)
